@@ -7,6 +7,11 @@ Open Scope N_scope.
 Theorem C18_hash_roundtrip : forall bs, Forall (fun b => b < 256) bs -> form_decode (byte_serialize bs) = bs.
 Proof. exact decode_serialize. Qed.
 
+(* hence two different hashes never produce the same parameter, nor the same announce URL: the request names one torrent *)
+Theorem C18_hash_injective : forall announce h1 h2, Forall (fun x => x < 256) h1 -> Forall (fun x => x < 256) h2 ->
+  create_url announce h1 = create_url announce h2 -> h1 = h2.
+Proof. exact create_url_injective. Qed.
+
 (* and its encoding contains no '&', '=', '?' or '#', so it cannot be cut short or merged with another parameter *)
 Theorem C18_hash_safe : forall bs, Forall (fun b => b < 256) bs ->
   forallb (fun c => negb (c =? ch_amp) && negb (c =? ch_eq) && negb (c =? ch_q) && negb (c =? 35)) (byte_serialize bs) = true.
@@ -41,3 +46,4 @@ Print Assumptions C18_hash_safe.
 Print Assumptions C18_url_shape.
 Print Assumptions C18_info_hash_found.
 Print Assumptions C18_existing_kept.
+Print Assumptions C18_hash_injective.
